@@ -166,12 +166,12 @@ CHECKS = {'C01': {'level': 'exploration',
          'assumptions': ['context switches only at the verif yield points',
                          'writers do not insert while known finding f10 (in-flight reservations visible to snapshots) is active - counted'],
          'tests': [{'run': '^TestC08Sched$',
-                    'checks': {'quick': 700, 'thorough': 8000},
+                    'checks': {'quick': 2500, 'thorough': 8000},
                     'shards': {'quick': 1, 'thorough': 12},
                     'timeout': {'quick': 900, 'thorough': 3400},
                     'env': {'GOMAXPROCS': 1}},
                    {'run': '^TestC08Exhaustive$',
-                    'env': {'VERIF_SCHED_LIMIT': {'quick': 250, 'thorough': 30000}, 'GOMAXPROCS': 1},
+                    'env': {'VERIF_SCHED_LIMIT': {'quick': 1500, 'thorough': 60000}, 'GOMAXPROCS': 1},
                     'timeout': {'quick': 900, 'thorough': 3400}}]},
  'C09': {'level': 'exploration',
          'rule': 'controlled-schedule part: generated programs of 2..4 writer tasks (1..2 transactions each, 1..4 steps: merges and puts into SHARED '
@@ -218,12 +218,12 @@ CHECKS = {'C01': {'level': 'exploration',
                          'reservation = known finding f10)',
                          'mode 2 is not bit-reproducible'],
          'tests': [{'run': '^TestC10Latched$',
-                    'checks': {'quick': 800, 'thorough': 10000},
+                    'checks': {'quick': 2500, 'thorough': 10000},
                     'shards': {'quick': 1, 'thorough': 8},
                     'timeout': {'quick': 900, 'thorough': 3400}},
                    {'run': '^TestC10LatchedExhaustive$', 'timeout': {'quick': 900, 'thorough': 3400}},
                    {'run': '^TestC10Parallel$',
-                    'checks': {'quick': 6, 'thorough': 200},
+                    'checks': {'quick': 10, 'thorough': 200},
                     'shards': {'quick': 1, 'thorough': 4},
                     'env': {'VERIF_C10_SECONDS': {'quick': 3, 'thorough': 8}},
                     'timeout': {'quick': 900, 'thorough': 3400}}]},
